@@ -443,6 +443,9 @@ class _MissingImportFinder:
 
         # unused_imports is a list of (lineno, Import) tuples, if enabled.
         self.unused_imports = [] if find_unused_imports else None
+        # Scopes that have been left and whose unused imports are reported
+        # once the deferred load checks have run.
+        self._scopes_pending_unused_check = []
 
         self.parse_docstrings = parse_docstrings
 
@@ -611,14 +614,12 @@ class _MissingImportFinder:
             yield
         finally:
             logger.debug("throwing last scope from scopestack: %r", new_scopestack[-1])
-            for name, use_checker in new_scopestack[-1].items():
-                if use_checker and use_checker.used == False and check_unused_imports:
-                    logger.debug(
-                        "unused checker %r scopestack_depth %r",
-                        use_checker,
-                        len(self.scopestack),
-                    )
-                    self.unused_imports.append((use_checker.lineno, use_checker.source))
+            if check_unused_imports and self.unused_imports is not None:
+                # A nested function defined earlier in this scope may still
+                # read these imports: such reads are only checked when the
+                # whole node has been scanned (_finish_deferred_load_checks),
+                # so the unused imports of this scope are reported then.
+                self._scopes_pending_unused_check.append(new_scopestack[-1])
             assert self.scopestack is new_scopestack
             self.scopestack = prev_scopestack
 
@@ -1221,6 +1222,12 @@ class _MissingImportFinder:
         for fullname, scopestack, lineno in self._deferred_load_checks:
             self._check_load(fullname, scopestack, lineno)
         self._deferred_load_checks = []
+        for scope in self._scopes_pending_unused_check:
+            for name, use_checker in scope.items():
+                if use_checker and use_checker.used == False:
+                    logger.debug("unused checker %r", use_checker)
+                    self.unused_imports.append((use_checker.lineno, use_checker.source))
+        self._scopes_pending_unused_check = []
 
     def _scan_unused_imports(self):
         # If requested, then check which of our imports were unused.
